@@ -104,13 +104,13 @@ def run_sweep(case: Dict[str, Any]) -> Dict[str, Any]:
                 d = pos(by_nodes[o.link_id])
                 count("c13_same_link_pairs")
             elif x < 0.3:  # opposite direction of the same street
-                a, b = o.link_id.split("-")
+                a, b = o.link_id.split("-")[:2]
                 rev = by_nodes.get(f"{b}-{a}")
                 d = pos(rev) if rev is not None else pos()
                 if rev is not None:
                     count("c13_opposite_direction_pairs")
             elif x < 0.45:  # adjacent link
-                a, b = o.link_id.split("-")
+                a, b = o.link_id.split("-")[:2]
                 adj = [l for l in links if l.link_id.split("-")[0] == b]
                 d = pos(rnd.choice(adj)) if adj else pos()
                 count("c13_adjacent_pairs")
